@@ -487,7 +487,10 @@ def to_fpm_and_back(wavefunction, dx, efl, wavelength, fpm, fpm_dx, shift=(0, 0)
 
     field_after_fpm = field_at_fpm * fpm
 
-    field_at_next_pupil = unfocus_fixed_sampling(field_after_fpm, fpm_dx, efl, wavelength, dx, wavefunction.shape, shift=shift, method=method)  # NOQA
+    # the return trip starts from the same shifted focal-plane samples: the shift is the same number of
+    # samples, which unfocus_fixed_sampling expects in units of its own output spacing (dx), not of fpm_dx
+    shift_back = (shift[0] / fpm_dx * dx, shift[1] / fpm_dx * dx)
+    field_at_next_pupil = unfocus_fixed_sampling(field_after_fpm, fpm_dx, efl, wavelength, dx, wavefunction.shape, shift=shift_back, method=method)  # NOQA
 
     if return_more:
         return field_at_next_pupil, field_at_fpm, field_after_fpm
